@@ -1,6 +1,8 @@
 // Driver for C38: the real update::parse_update_metadata.  Script:
 //     parse doc=<hex> src=<label>
 //     gen kind=arr|obj|arr-open|obj-open|extra-arr|extra-obj depth=<N> src=<label>     (deep nesting, bytes built here)
+//     gen kind=pat-<name> pre=<hex> mid=<hex> post=<hex> wrap=0|1 depth=<N> src=<label>  (pre^N mid post^N: any per-level shape,
+//                                                                                       e.g. an empty-container or scalar sibling before the child)
 // Every document is copied into an exact-size heap block and parsed through a string_view on it (a read past
 // the end is a heap-buffer-overflow for the asan flavour).  The cases run in a child process, on a thread with an
 // 8 MiB stack, with a 5 s watchdog per case (parsers_sup.hpp): stack overflow / crash / hang become "died" events.
@@ -11,7 +13,7 @@
 
 using namespace ephemeralnet;
 
-struct Case { std::string doc, src, kind; long depth = 0; };
+struct Case { std::string doc, src, kind, pre, mid, post; long depth = 0; bool wrap = false; };
 static const std::string kValidPrefix =
     "{\"version\":\"1.2.3\",\"tag\":\"v1.2.3\",\"commit\":\"abc123\",\"channel\":\"stable\",\"generated_at\":\"2025\","
     "\"downloads\":{\"linux\":{\"url\":\"https://e.x/linux\"}},\"x\":";
@@ -37,6 +39,7 @@ static std::string jb(const std::string& s) {
 static void emit_input(ev::Ev& e, const Case& c) {
     e.s("src", c.src).i("n", static_cast<long long>(c.doc.size()));
     if (!c.kind.empty()) e.s("kind", c.kind).i("depth", c.depth);
+    if (!c.pre.empty() || !c.post.empty()) e.s("pre", c.pre).s("mid", c.mid).s("post", c.post).i("wrap", c.wrap ? 1 : 0);
     if (c.doc.size() <= 3000) e.raw("doc", jb(c.doc));
 }
 
@@ -48,6 +51,17 @@ int main(int argc, char** argv) {
     while (ev::read_cmd(in, cmd)) {
         Case c; c.src = cmd.s("src");
         if (cmd.op == "parse") c.doc = sup::unhex(cmd.s("doc"));
+        else if (cmd.op == "gen" && cmd.s("kind").rfind("pat-", 0) == 0) {
+            c.kind = cmd.s("kind"); c.depth = cmd.i("depth"); c.wrap = cmd.i("wrap", 0) != 0;
+            c.pre = cmd.s("pre"); c.mid = cmd.s("mid"); c.post = cmd.s("post");
+            const std::string pre = sup::unhex(c.pre), mid = sup::unhex(c.mid), post = sup::unhex(c.post);
+            std::string d;
+            d.reserve((pre.size() + post.size()) * static_cast<size_t>(c.depth) + mid.size() + 300);
+            for (long i = 0; i < c.depth; ++i) d += pre;
+            d += mid;
+            for (long i = 0; i < c.depth; ++i) d += post;
+            c.doc = c.wrap ? kValidPrefix + d + "}" : d;
+        }
         else if (cmd.op == "gen") { c.kind = cmd.s("kind"); c.depth = cmd.i("depth"); c.doc = nest(c.kind, c.depth); }
         else continue;
         cases.push_back(std::move(c));
